@@ -548,3 +548,6 @@ COMPONENTS = {
              "importlib / pkgutil", "process-global state of a fresh process per history"],
     "stub": ["execute bodies of generated user-library commands", "registry set replaced by a seeded-order set subclass"],
 }
+
+
+STATE_MEASURE = {'C19': 'abstract state = (set of modules imported so far, dynamic definitions, libraries requested); schedule key = (history, registry permutation seed)'}
